@@ -521,9 +521,11 @@ Lemma new_cells_shape fuel st m s n st' : new_cells fuel st m s n = Ok st' -> ex
 Proof.
   unfold new_cells. destruct (is_closed st m); [discriminate|].
   destruct (negb (is_space st m s) || negb (valid_name n)); [discriminate|].
+  destruct (has_name fuel st (st_bases st) m s n) as [here| |]; cbn [bind]; try discriminate.
   destruct (descendants fuel st (st_bases st) m s) as [ds| |]; cbn [bind]; try discriminate.
-  match goal with |- context [any_res ?f ?l] => destruct (any_res f l) as [[|]| |] end;
-    cbn [bind]; try discriminate. intros H; inversion H. eauto.
+  match goal with |- context [any_res ?f ?l] => destruct (any_res f l) as [clash| |] end;
+    cbn [bind]; try discriminate.
+  destruct (here || clash); [discriminate|]. intros H; inversion H. eauto.
 Qed.
 Lemma add_base_shape fuel st m s b st' : add_base fuel st m s b = Ok st' -> exists sp bs cl, st' = with_graph st sp bs cl.
 Proof.
@@ -708,6 +710,99 @@ Proof.
     + left. exists s. simpl. split; auto. apply in_del_spec. auto.
 Qed.
 
+(** ** deleting a reference, deleting a space *)
+Lemma del_attr_inv fuel st ow n st' : Inv st -> del_attr fuel st ow n = Ok st' -> Inv st' /\ Keeps st st'.
+Proof.
+  intros HI. unfold del_attr. destruct (is_closed st (fst ow)); [discriminate|].
+  destruct (find_ref ow n (st_refs st)) as [r|] eqn:F; [|discriminate].
+  intros H; inversion H; subst st'; clear H. apply find_ref_some in F. split.
+  - apply rm_del_ref_inv; tauto.
+  - apply rm_del_ref_keeps; auto.
+Qed.
+
+Lemma tget_tab_remove_none k k' x t : tget k t = None -> tget k (tab_remove k' x t) = None.
+Proof.
+  intros H. destruct (key_dec k' k) as [->|Hn].
+  - rewrite tget_tab_remove_same, (lookup_none _ _ H). reflexivity.
+  - rewrite tget_tab_remove_other; auto.
+Qed.
+
+Lemma del_refs_none k : forall l st,
+  tget k (st_tab st) = None -> tget k (st_tab (fold_left rm_del_ref l st)) = None.
+Proof.
+  induction l as [|a l IH]; intros st H; simpl; auto.
+  apply IH. simpl. apply tget_tab_remove_none; auto.
+Qed.
+
+Lemma del_refs_stay a l st :
+  (forall r, In r (a :: l) -> In r (st_refs st)) -> NoDup (map r_id (a :: l)) ->
+  forall r, In r l -> In r (st_refs (rm_del_ref st a)).
+Proof.
+  intros Hin Hnd r Hr. simpl. apply in_drop_ref. split; [apply Hin; simpl; auto|].
+  simpl in Hnd. inversion Hnd as [|? ? Hna _]; subst. intros E. apply Hna. rewrite <- E. apply in_map; auto.
+Qed.
+
+Lemma del_refs_inv ex : forall l st,
+  Inv' ex st -> (forall r, In r l -> In r (st_refs st)) -> NoDup (map r_id l) ->
+  Inv' ex (fold_left rm_del_ref l st).
+Proof.
+  induction l as [|a l IH]; intros st HI Hin Hnd; simpl; auto.
+  apply IH.
+  - apply rm_del_ref_inv; auto. apply Hin; simpl; auto.
+  - eapply del_refs_stay; eauto.
+  - simpl in Hnd. inversion Hnd; auto.
+Qed.
+
+(** a spec that does not survive the deletion of a list of references has lost its last reference *)
+Lemma del_refs_keeps : forall l st,
+  Inv st -> (forall r, In r l -> In r (st_refs st)) -> NoDup (map r_id l) ->
+  forall s, In s (st_specs st) ->
+    In s (st_specs (fold_left rm_del_ref l st)) \/
+    tget (s_grp s, s_val s) (st_tab (fold_left rm_del_ref l st)) = None.
+Proof.
+  induction l as [|a l IH]; intros st HI Hin Hnd s Hs; simpl; auto.
+  assert (HI1 : Inv (rm_del_ref st a)) by (apply rm_del_ref_inv; auto; apply Hin; simpl; auto).
+  assert (Hin1 : forall r, In r l -> In r (st_refs (rm_del_ref st a))) by (eapply del_refs_stay; eauto).
+  assert (Hnd1 : NoDup (map r_id l)) by (simpl in Hnd; inversion Hnd; auto).
+  pose proof (inv_sp _ _ HI) as HSP.
+  assert (K : In s (st_specs (rm_del_ref st a)) \/
+              tget (s_grp s, s_val s) (st_tab (rm_del_ref st a)) = None).
+  { simpl.
+    match goal with |- context [gc ?m ?v ?tb ?sp] => destruct (gc_keeps m v tb sp _ s HSP Hs) as [H|[Hn [Hm Hv]]] end.
+    - left; auto.
+    - right. rewrite Hm, Hv. auto. }
+  destruct K as [K|K].
+  - apply IH; auto.
+  - right. apply del_refs_none; auto.
+Qed.
+
+Lemma del_space_inv fuel st m s st' : Inv st -> del_space fuel st m s = Ok st' -> Inv st' /\ Keeps st st'.
+Proof.
+  intros HI. unfold del_space.
+  destruct (descendants fuel st (st_bases st) m s) as [ds| |]; cbn [bind]; try discriminate.
+  destruct (map_res _ ds) as [ls| |]; cbn [bind]; try discriminate.
+  intros H; inversion H; subst st'; clear H.
+  set (l := filter (in_space m s) (st_refs st)).
+  assert (Hin : forall r, In r l -> In r (st_refs st)).
+  { intros r Hr. unfold l in Hr. apply filter_In in Hr. tauto. }
+  assert (Hnd : NoDup (map r_id l)).
+  { unfold l. apply NoDup_map_filter. apply (rt_nodup _ _ _ (inv_rt _ _ HI)). }
+  split.
+  - apply Inv_with_graph. apply del_refs_inv; auto.
+  - intros sp Hsp. destruct (del_refs_keeps l st HI Hin Hnd sp Hsp) as [K|K].
+    + left. exists sp. simpl. auto.
+    + right; right. simpl. auto.
+Qed.
+
+Lemma del_model_attr_inv fuel st m n st' :
+  Inv st -> del_model_attr fuel st m n = Ok st' -> Inv st' /\ Keeps st st'.
+Proof.
+  intros HI. unfold del_model_attr. destruct (is_closed st m); [discriminate|].
+  destruct (is_space st m n).
+  - apply del_space_inv; auto.
+  - apply del_attr_inv; auto.
+Qed.
+
 (** * every step preserves the invariant *)
 Ltac unchanged := cbn [finish fst]; split; [assumption|apply Keeps_X, Keeps_same; reflexivity].
 
@@ -715,7 +810,7 @@ Theorem step_inv fuel st o :
   Inv st -> Inv (fst (step fuel st o)) /\ KeepsX (explicit o) st (fst (step fuel st o)).
 Proof.
   intros HI.
-  destruct o as [m s|m s n|ow n p ft sh v vk|ow n p v ok|ow n v|ow n|m old new vk|m s b|m s b|m|m v sh|m v p|m v];
+  destruct o as [m s|m s n|ow n p ft sh v vk|ow n p v ok|ow n v|ow n|m old new vk|m s b|m s b|m|m v sh|m v p|m v|m s];
     cbn [step explicit].
   - destruct (graph_op_inv st (new_space st m s) HI (new_space_shape st m s)); split; auto using Keeps_X.
   - destruct (graph_op_inv st (new_cells fuel st m s n) HI (new_cells_shape fuel st m s n)); split; auto using Keeps_X.
@@ -727,11 +822,11 @@ Proof.
     cbn [finish fst]. split.
     + apply (set_attr_inv _ _ _ _ _ _ _ SA HI).
     + apply Keeps_X. apply (set_attr_keeps fuel st ow n v st' (or_introl HI) SA).
-  - unfold del_attr. destruct (is_closed st (fst ow)); [unchanged|].
-    destruct (find_ref ow n (st_refs st)) as [r|] eqn:F; [|unchanged].
-    cbn [finish fst]. apply find_ref_some in F. split.
-    + apply rm_del_ref_inv; tauto.
-    + apply Keeps_X. apply rm_del_ref_keeps; auto.
+  - destruct (snd ow).
+    + destruct (del_attr fuel st ow n) as [st'| |] eqn:U; [|unchanged|unchanged].
+      cbn [finish fst]. destruct (del_attr_inv _ _ _ _ _ HI U). split; auto using Keeps_X.
+    + destruct (del_model_attr fuel st (fst ow) n) as [st'| |] eqn:U; [|unchanged|unchanged].
+      cbn [finish fst]. destruct (del_model_attr_inv _ _ _ _ _ HI U). split; auto using Keeps_X.
   - destruct (update st m old new vk) as [st'| |] eqn:U; [|unchanged|unchanged].
     cbn [finish fst]. destruct (update_inv _ _ _ _ _ _ HI U). split; auto using Keeps_X.
   - destruct (graph_op_inv st (add_base fuel st m s b) HI (add_base_shape fuel st m s b)); split; auto using Keeps_X.
@@ -744,6 +839,8 @@ Proof.
     cbn [finish fst]. destruct (set_path_inv _ _ _ _ _ HI U). split; auto using Keeps_X.
   - destruct (del_spec_op st m v) as [st'| |] eqn:U; [|unchanged|unchanged].
     cbn [finish fst]. apply (del_spec_op_inv _ _ _ _ HI U).
+  - destruct (del_model_attr fuel st m s) as [st'| |] eqn:U; [|unchanged|unchanged].
+    cbn [finish fst]. destruct (del_model_attr_inv _ _ _ _ _ HI U). split; auto using Keeps_X.
 Qed.
 
 Lemma run_from_inv fuel ops : forall st, Inv st -> Inv (fold_left (fun st o => fst (step fuel st o)) ops st).
